@@ -39,6 +39,9 @@ var readOnly = map[string]bool{
 	"(*regexp.Regexp).FindSubmatchIndex": true, "(*regexp.Regexp).FindIndex": true, "(*regexp.Regexp).Find": true, "(*regexp.Regexp).FindAllSubmatch": true,
 	"strings.TrimRight": true, "strings.TrimSpace": true, "strings.TrimPrefix": true, "strings.Trim": true, "strings.EqualFold": true, "strings.HasPrefix": true, "strings.HasSuffix": true,
 	"errors.New": true,
+	// the byte-order readers (the writers PutUintN are not read-only)
+	"(encoding/binary.bigEndian).Uint16": true, "(encoding/binary.bigEndian).Uint32": true, "(encoding/binary.bigEndian).Uint64": true,
+	"(encoding/binary.littleEndian).Uint16": true, "(encoding/binary.littleEndian).Uint32": true, "(encoding/binary.littleEndian).Uint64": true,
 }
 
 // aliasReturning lists read-only stdlib functions whose []byte result aliases their first argument.
